@@ -901,6 +901,14 @@ def _find_overload(fn, **kwargs):
 
     if dispatch is None:
         dispatch = Ovld(**kwargs)
+    elif (
+        not is_ovld(dispatch)
+        and inspect.isfunction(dispatch)
+        and isinstance(fr.f_locals, ovld_cls_dict)
+    ):
+        # A plain earlier definition in an overloading class body: the
+        # namespace merges it with this one
+        dispatch = Ovld(**kwargs)
     elif not is_ovld(dispatch):  # pragma: no cover
         raise TypeError("@ovld requires Ovld instance")
     elif kwargs:  # pragma: no cover
